@@ -12,6 +12,10 @@ the thorough tier, all of depth <= 2 plus a seeded sample in quick — each foll
 modes; hover and definition at every column of the lines that hold references, both boundaries of every span included);
 and seeded random sequences of length <= 60 over 3 documents with imports between documents, files on disk changing, and
 queries on open, closed and never-opened documents. Documents are never written to disk.
+Every family runs under a set of *namings* of its documents and disk files (`NAMINGS`): plain ASCII names, and names a client has to
+percent-encode in the document URI — blanks, non-ASCII letters, `#`, `%`, `+`, `&`, a directory with such a name, names whose URI
+percent-decodes to the URI of another document of the scenario — in three URI spellings (`Path.as_uri()`-style, lower-case hex,
+minimal encoding). All depth <= 2 histories run under every naming; the sampled and the random ones rotate through them.
 
 Specification on the implementation's observations (`c18.check` -> Lean `specCheck`): after open/change exactly one publication,
 equal to `diagsOf (front (current text))`; queries answer what a cache-free server would answer from the current text
@@ -33,6 +37,7 @@ THEOREMS = [
     "Pydjinni.Sys.Lsp.run_inv",
     "Pydjinni.Sys.Lsp.queries_pure",
     "Pydjinni.Sys.Lsp.close_drops_state",
+    "Pydjinni.Sys.Lsp.close_keeps_others",
     "Pydjinni.Sys.Lsp.no_internal_error",
     "Pydjinni.Sys.Lsp.lsp_refines_spec",
     "Pydjinni.Sys.Lsp.crash_leaves_stale_diagnostics",
@@ -63,6 +68,62 @@ TEXTS_B = [
 EXH = {"texts": TEXTS_A + TEXTS_B, "disk": DISK, "docs": {"a": [0, 1, 2, 3, 4], "b": [5, 6, 7, 8, 9]}}
 EXTRA = [{"ev": "save", "u": "a"}, {"ev": "watched", "changes": ["lib.pydjinni"]}, {"ev": "watched", "changes": ["a.pydjinni"]},
          {"ev": "watched", "changes": ["<config>"]}]
+
+
+# ---- namings: the same scenario with other file names / URI spellings -----------------------------------------------------------
+# stems of the documents (a, b, c) and of the disk files (lib, missing, ext; `a.pydjinni` is the disk copy of document a, ...).
+# A URI is an opaque key for the server: nothing it does may depend on how the client spelled it.
+NAMINGS = [
+    {"id": "plain", "style": "py", "stems": {}},
+    {"id": "blank", "style": "py", "stems": {"a": "my a", "b": "b  two", "c": "c d", "lib": "my lib", "ext": "ext file"}},
+    {"id": "non-ascii", "style": "py", "stems": {"a": "grüße", "b": "bär", "c": "çé日本", "lib": "bibliothèque", "missing": "fehlt ö"}},
+    {"id": "reserved", "style": "py", "stems": {"a": "a#1", "b": "50%+b", "c": "c&d=e;f", "lib": "lib+x#y", "ext": "e%t"}},
+    # the URI of `b` percent-decodes to the URI of `a`, that of `c` to the URI of `b`
+    {"id": "decodes-to-sibling", "style": "py", "stems": {"a": "a b", "b": "a%20b", "c": "a%2520b", "lib": "lib%41"}},
+    {"id": "lower-hex", "style": "lower", "stems": {"a": "my ä", "b": "b#ü", "c": "c d", "lib": "my lib"}},
+    {"id": "minimal-encoding", "style": "min", "stems": {"a": "ü a", "b": "b+ß", "c": "c%d", "lib": "lib é"}},
+    {"id": "directory", "style": "py", "stems": {"a": "d ü/a", "b": "d ü/b", "c": "d ü/c", "lib": "d ü/lib", "missing": "d ü/missing", "ext": "d ü/ext"}},
+]
+
+
+_IMPORT_LITERAL = None
+
+
+def actual_name(stems, logical):
+    stem, dot, ext = logical.rpartition(".")
+    return stems.get(stem, stem) + dot + ext
+
+
+def retext(stems, t):
+    """import literals name the file relative to the importing file: all files of a naming share one directory"""
+    global _IMPORT_LITERAL
+    if _IMPORT_LITERAL is None:
+        import re
+        _IMPORT_LITERAL = re.compile(r'"([a-z]+\.(?:pydjinni|yaml))"')
+    return None if t is None else _IMPORT_LITERAL.sub(lambda m: '"' + actual_name(stems, m.group(1)).rsplit("/", 1)[-1] + '"', t)
+
+
+def apply_naming(scn, naming):
+    """the scenario with its documents and files renamed: texts and disk contents import the new names"""
+    stems = naming["stems"]
+    return {"texts": [retext(stems, t) for t in scn["texts"]], "disk": {actual_name(stems, f): retext(stems, c) for f, c in scn["disk"].items()},
+            "docs": scn["docs"], "names": {d: stems.get(d, d) for d in scn["docs"]}, "style": naming["style"], "naming": naming["id"], "stems": stems}
+
+
+def rename_seq(named, seq):
+    """disk and watched-files events of a history written in the family's logical file names, in the naming's names"""
+    stems, out = named["stems"], []
+    for ev in seq:
+        if ev["ev"] == "disk":
+            ev = {"ev": "disk", "files": {actual_name(stems, f): retext(stems, c) for f, c in ev["files"].items()}}
+        elif ev["ev"] == "watched":
+            ev = {"ev": "watched", "changes": [c if c == "<config>" else actual_name(stems, c) for c in ev["changes"]]}
+        out.append(ev)
+    return out
+
+
+def replay_scenario(scn):
+    return {k: scn[k] for k in ("texts", "disk", "names", "style", "naming") if k in scn}
 
 
 def battery(scn, docs=None):
@@ -210,29 +271,36 @@ def final_battery(scn, seq):
 # ---- evaluation (worker processes) -------------------------------------------------------------------------------------
 
 def _worker(args):
-    base, idx, scn, seqs, shared_table = args
+    base, idx, scns, seqs, shared_table = args
     root = Path(base) / f"ws{idx}"
     lsp.setup(root)
     drv = common.Driver()
     results = []
-    table0 = None
-    if shared_table:
-        # no disk events in this family: one table for all sequences
-        pairs = [{"ev": "open", "u": d, "t": t} for d, ts in scn["docs"].items() for t in ts]
-        table0 = lsp.front_table(root, scn, pairs)
-    batch, metas = [], []
+    tables = {}
+    batch, metas, batch_k = [], [], None
+
+    def table_of(k):
+        # no disk events in this family: one table per naming for all its sequences
+        if k not in tables:
+            scn = scns[k]
+            pairs = [{"ev": "open", "u": d, "t": t} for d, ts in scn["docs"].items() for t in ts]
+            tables[k] = lsp.front_table(root, scn, pairs)
+        return tables[k]
 
     def flush():
         nonlocal batch, metas
         if not batch:
             return
         if shared_table:
-            res = drv.batch([{"op": "c18.check", "configUri": lsp.config_uri(root), "front": table0, "items": batch}], timeout=3000)[0]
+            unq = lsp.unquote_table([u for it, _ in batch for u in it["_uris"]])
+            res = drv.batch([{"op": "c18.check", "configUri": lsp.config_uri(root), "front": table_of(batch_k), "unq": unq,
+                              "items": [{k: v for k, v in it.items() if k != "_uris"} for it, _ in batch]}], timeout=3000)[0]
             if "error" in res:
                 raise RuntimeError("driver: " + res["error"])
             rs = res["results"]
         else:
-            res = drv.batch([{"op": "c18.check", "configUri": lsp.config_uri(root), "front": tb, "items": [it]} for tb, it in batch], timeout=3000)
+            res = drv.batch([{"op": "c18.check", "configUri": lsp.config_uri(root), "front": tb, "unq": lsp.unquote_table(it["_uris"]),
+                              "items": [{k: v for k, v in it.items() if k != "_uris"}]} for it, tb in batch], timeout=3000)
             for x in res:
                 if "error" in x:
                     raise RuntimeError("driver: " + x["error"])
@@ -247,27 +315,39 @@ def _worker(args):
             results.append(out)
         batch, metas = [], []
 
-    for sid, seq in seqs:
+    def item(scn, seq, impl):
+        evs = lsp.model_events(root, seq, scn)
+        return {"events": evs, "impl": impl, "_uris": [e["u"] for e in evs if "u" in e] + [c for e in evs for c in e.get("changes", [])]}
+
+    for sid, k, seq in sorted(seqs, key=lambda x: x[1]) if shared_table else seqs:
+        scn = scns[k]
         if shared_table:
+            if batch_k is not None and k != batch_k:
+                flush()
+            batch_k = k
+            table_of(k)
             impl = lsp.run_sequence(root, scn, seq)
-            batch.append({"events": lsp.model_events(root, seq), "impl": impl})
+            batch.append((item(scn, seq, impl), None))
             metas.append((sid, seq, impl, None))
         else:
             tb = lsp.front_table(root, scn, seq)
             impl = lsp.run_sequence(root, scn, seq)
-            batch.append((tb, {"events": lsp.model_events(root, seq), "impl": impl}))
+            batch.append((item(scn, seq, impl), tb))
             metas.append((sid, seq, impl, tb))
         if len(batch) >= 200:
             flush()
     flush()
-    kinds = sorted({row["r"]["k"] + (":" + row["r"]["cls"] if row["r"].get("cls") else "") for row in (table0 or [])})
-    for row in (table0 or []):
-        if not row["r"].get("buffer_ok", True):
-            kinds.append("!buffer:" + row["u"].rsplit("/", 1)[-1] + ":" + str(row["t"]))
+    kinds = []
+    for k, table0 in tables.items():
+        kinds += sorted({row["r"]["k"] + (":" + row["r"]["cls"] if row["r"].get("cls") else "") for row in table0})
+        for row in table0:
+            if not row["r"].get("buffer_ok", True):
+                kinds.append("!buffer:" + str(k) + ":" + next((d for d in scns[k]["docs"] if lsp.uri_of(root, d, scns[k]) == row["u"]), "a") + ":" + str(row["t"]))
     return results, kinds
 
 
-def evaluate(ctx, scn, seqs, shared_table, workers=14):
+def evaluate(ctx, scns, seqs, shared_table, workers=14):
+    """`seqs`: (id, index of the scenario in `scns`, events)"""
     import multiprocessing as mp
     if not seqs:
         return [], []
@@ -282,7 +362,7 @@ def evaluate(ctx, scn, seqs, shared_table, workers=14):
     workers = max(1, min(workers, len(seqs) // 4 or 1))
     chunks = [seqs[i::workers] for i in range(workers)]
     with mp.get_context("fork").Pool(workers) as pool:
-        res = pool.map(_worker, [(str(ctx.tmp), i, scn, ch, shared_table) for i, ch in enumerate(chunks)])
+        res = pool.map(_worker, [(str(ctx.tmp), i, scns, ch, shared_table) for i, ch in enumerate(chunks)])
     out, kinds = [], set()
     for r, k in res:
         out += r
@@ -300,6 +380,14 @@ WHAT = {
     "publication-on-save": "saving published diagnostics",
     "wrong-diagnostics-on-revalidation": "a publication triggered by a watched-files event is not the diagnostics of the document's current text",
 }
+
+
+def check_one(ctx, root, scn, s):
+    tb = lsp.front_table(root, scn, s)
+    impl = lsp.run_sequence(root, scn, s)
+    r = ctx.driver.one({"op": "c18.check", "configUri": lsp.config_uri(root), "front": tb, "unq": lsp.model_unq(root, s, scn),
+                        "items": [{"events": lsp.model_events(root, s, scn), "impl": impl}]})
+    return tb, impl, r
 
 
 def shrink(ctx, scn, seq, clause):
@@ -323,9 +411,7 @@ def shrink(ctx, scn, seq, clause):
         return True
 
     def fails(s):
-        tb = lsp.front_table(root, scn, s)
-        impl = lsp.run_sequence(root, scn, s)
-        r = ctx.driver.one({"op": "c18.check", "configUri": lsp.config_uri(root), "front": tb, "items": [{"events": lsp.model_events(root, s), "impl": impl}]})
+        tb, impl, r = check_one(ctx, root, scn, s)
         return "error" not in r and any(c == clause for _, c in r["results"][0]["spec"]), impl
     cur = list(seq)
     # first the cheap big step: the failing event with the state-changing events before it, no other query
@@ -346,53 +432,68 @@ def shrink(ctx, scn, seq, clause):
 
 
 def run(ctx):
-    ctx.coverage["rule"] = ("event sequences over open/change/close/save/watched-files on 2 documents x 5 texts: all of depth <= 2 (quick; <= 4 thorough) plus a "
-                            "seeded sample of depth 3-4, each followed by documentSymbol (both modes) and hover/definition at every column of the reference lines; "
-                            "random sequences (<= 60 events, 3 documents, imports between documents, disk changes, queries on open/closed/unknown documents); "
-                            "distinct = distinct mutator sequence; non-trivial = at least two state-changing events")
+    ctx.coverage["rule"] = ("event sequences over open/change/close/save/watched-files on 2 documents x 5 texts: all of depth <= 2 (quick; <= 4 thorough) under "
+                            "every naming of the documents and files (plain; blanks, non-ASCII letters, #, %, +, & in file or directory names; names whose URI "
+                            "percent-decodes to a sibling's URI; three URI spellings) plus a seeded sample of depth 3-4 rotating through the namings (thorough: "
+                            "all of depth <= 4 plain, all of depth <= 3 under every naming), each followed by documentSymbol (both modes) and hover/definition "
+                            "at every column of the reference lines; "
+                            "random sequences (<= 60 events, 3 documents, imports between documents, disk changes, queries on open/closed/unknown documents), "
+                            "rotating through the namings; distinct = distinct (naming, mutator sequence); non-trivial = at least two state-changing events")
     ctx.assumptions += [
         "protocol misuse that pygls itself rejects (change/close of a document that is not open, opening an open document) is outside the event alphabet",
         "generate_on_save is off; the configuration file does not exist (default configuration); code lenses are not queried",
         "the front end never ends in a non-ApplicationException (C06); if it does, the oracle says `crash` and the case is reported",
+        "document URIs are well-formed `file:` URIs (reserved characters percent-encoded); `urllib.parse.unquote` is a parameter of the model",
     ]
     r = random.Random(f"{ctx.seed}/c18")
+    named_ex = [apply_naming(EXH, nm) for nm in NAMINGS]
+    named_rnd = [apply_naming(RND, nm) for nm in NAMINGS]
     # ---- exhaustive family
+    plans = []      # (index of the naming, logical mutator sequence)
     if ctx.quick:
-        seqs = all_sequences(EXH, 2)
-        seen = {json.dumps(s) for s in seqs}
+        base = all_sequences(EXH, 2)
+        for k in range(len(NAMINGS)):
+            plans += [(k, s) for s in base]
+        seen = {json.dumps(s) for s in base}
+        n = 0
         for i in range(ctx.n(1100, 0)):
             s = sample_sequence(EXH, random.Random(f"{ctx.seed}/c18/s/{i}"), 3 + i % 2)
             if json.dumps(s) not in seen:
                 seen.add(json.dumps(s))
-                seqs.append(s)
+                plans.append(((n + ctx.seed) % len(NAMINGS), s))
+                n += 1
     else:
-        seqs = all_sequences(EXH, 4)
+        plans += [(0, s) for s in all_sequences(EXH, 4)]
+        d3 = all_sequences(EXH, 3)
+        for k in range(1, len(NAMINGS)):
+            plans += [(k, s) for s in d3]
     import time
     t0 = time.time()
-    bats = {d: battery(EXH, [d]) for d in EXH["docs"]}
+    bats = [{d: battery(scn, [d]) for d in scn["docs"]} for scn in named_ex]
     mini = {d: [{"ev": "symbols", "u": d, "hier": True}, {"ev": "symbols", "u": d, "hier": False},
                 {"ev": "hover", "u": d, "line": 1, "col": 18}, {"ev": "definition", "u": d, "line": 1, "col": 18}] for d in EXH["docs"]}
 
-    def with_battery(s):
+    def with_battery(k, s):
         touched = {e["u"] for e in s if e["ev"] in ("open", "change", "close")}
-        out = list(s)
+        out = rename_seq(named_ex[k], s)
         for d in EXH["docs"]:
-            out += bats[d] if d in touched else mini[d]   # a document the history never opened: a few probes (all must answer null)
+            out += bats[k][d] if d in touched else mini[d]   # a document the history never opened: a few probes (all must answer null)
         return out
-    ex = [(i, with_battery(s)) for i, s in enumerate(seqs)]
-    res_ex, kinds = evaluate(ctx, EXH, ex, shared_table=True)
+    ex = [(i, k, with_battery(k, s)) for i, (k, s) in enumerate(plans)]
+    res_ex, kinds = evaluate(ctx, named_ex, ex, shared_table=True)
     ctx.stats["exhaustive_sequences"] = len(ex)
-    ctx.stats["battery_queries_per_document"] = {d: len(b) for d, b in bats.items()}
+    ctx.stats["battery_queries_per_document"] = {named_ex[k]["naming"]: {d: len(b) for d, b in bats[k].items()} for k in range(len(NAMINGS))}
     ctx.stats["t_exhaustive_s"] = round(time.time() - t0, 1)
     t0 = time.time()
-    ctx.stats["front_kinds_exhaustive"] = kinds
+    ctx.stats["front_kinds_exhaustive"] = [k for k in kinds if not k.startswith("!buffer")]
     # ---- random family
     rnd = []
-    for i in range(ctx.n(120, 800)):
+    for i in range(ctx.n(160, 800)):
         rr = random.Random(f"{ctx.seed}/c18/r/{i}")
         s = random_sequence(rr, rr.choice([8, 20, 40, 60]))
-        rnd.append((i, s + final_battery(RND, s)))
-    res_rnd, _ = evaluate(ctx, RND, rnd, shared_table=False)
+        k = (i + ctx.seed) % len(NAMINGS)
+        rnd.append((i, k, rename_seq(named_rnd[k], s) + final_battery(named_rnd[k], s)))
+    res_rnd, _ = evaluate(ctx, named_rnd, rnd, shared_table=False)
     ctx.stats["random_sequences"] = len(rnd)
     ctx.stats["t_random_s"] = round(time.time() - t0, 1)
 
@@ -400,29 +501,35 @@ def run(ctx):
     # the tie's own premise: what the front end is given for an open document is the editor buffer, not the file of the same name
     stale_input = [k for k in kinds if k.startswith("!buffer")] + (["!buffer:random"] if any("!buffer" in (r.get("kinds") or []) for r in res_rnd) else [])
     if stale_input:
-        name, t = (stale_input[0].split(":") + ["", ""])[1:3]
+        _, k, name, t = (stale_input[0].split(":") + ["0", "a", "0"])[:4]
+        scn0 = named_ex[int(k) if k.isdigit() else 0]
         ctx.report("server:front-end-input-not-the-buffer", "the text handed to the front end for an open document is not the editor buffer (a file of the same name exists on disk)",
-                   {"input": {"scenario": {"texts": EXH["texts"], "disk": EXH["disk"]}, "events": [{"ev": "open", "u": name.replace(".pydjinni", "") or "a", "t": int(t) if t.isdigit() else 0}]},
+                   {"input": {"scenario": replay_scenario(scn0), "events": [{"ev": "open", "u": name or "a", "t": int(t) if t.isdigit() else 0}]},
                     "observed": stale_input[:5]})
-    for fam, scn, items, results in (("exhaustive", EXH, dict(ex), res_ex), ("random", RND, dict(rnd), res_rnd)):
+    for fam, scns, items, results in (("exhaustive", named_ex, {i: (k, s) for i, k, s in ex}, res_ex), ("random", named_rnd, {i: (k, s) for i, k, s in rnd}, res_rnd)):
         for res in results:
-            seq = items[res["sid"]]
+            k, seq = items[res["sid"]]
+            scn = scns[k]
             muts = [e for e in seq if e["ev"] in ("open", "change", "close", "watched", "save", "disk")]
             nq = len(seq) - len(muts)
-            ctx.count(key=fam + json.dumps(muts if fam == "exhaustive" else res["sid"]), nontrivial=sum(1 for e in muts if e["ev"] in ("open", "change", "close")) >= 2,
-                      sample={"family": fam, "events": muts[:8], "queries": nq, "publications": res["pubs"], "non_null_answers": res["nonnull"]}, n=len(seq))
+            ctx.count(key=fam + scn["naming"] + json.dumps(muts if fam == "exhaustive" else res["sid"]), nontrivial=sum(1 for e in muts if e["ev"] in ("open", "change", "close")) >= 2,
+                      sample={"family": fam, "naming": scn["naming"], "events": muts[:8], "queries": nq, "publications": res["pubs"], "non_null_answers": res["nonnull"]}, n=len(seq))
             ctx.stat(fam + "_publications", res["pubs"])
             ctx.stat(fam + "_non_null_answers", res["nonnull"])
-            for k in res.get("kinds") or []:
-                ctx.stat("front_kind_" + k)
+            ctx.stat(fam + "_naming_" + scn["naming"])
+            ctx.stat(fam + "_non_null_answers_naming_" + scn["naming"], res["nonnull"])
+            ctx.stat(fam + "_publications_naming_" + scn["naming"], res["pubs"])
+            for kk in res.get("kinds") or []:
+                ctx.stat("front_kind_" + kk)
             if res["corr"]:
-                breaks.append({"family": fam, "events": muts, "at": res["corr"], "event": seq[res["corr"]["index"]]})
+                breaks.append({"family": fam, "naming": scn["naming"], "events": muts, "at": res["corr"], "event": seq[res["corr"]["index"]]})
             clauses = []
             for i, c in res["spec"]:
                 if c not in clauses:
                     clauses.append(c)
             for c in clauses:
                 ctx.stat("spec_failed_" + c)
+                ctx.stat("spec_failed_" + c + "_naming_" + scn["naming"])
                 if reported.get(c, 0) >= 3:
                     continue
                 reported[c] = reported.get(c, 0) + 1
@@ -430,26 +537,24 @@ def run(ctx):
                 # the shortest history that shows it: everything up to the first failing event, then shrunk
                 small, impl = shrink(ctx, scn, seq[:first + 1], c)
                 ctx.report("server:" + c, WHAT.get(c, c),
-                           {"input": {"scenario": {"texts": scn["texts"], "disk": scn["disk"]}, "events": small},
+                           {"input": {"scenario": replay_scenario(scn), "events": small},
+                            "uris": {d: lsp.uri_of(Path("/ws"), d, scn) for d in scn["docs"]},
                             "failing_event": small[-1] if small else None, "impl": impl[-1] if impl else None,
-                            "found_in": {"family": fam, "length": len(seq), "first_failing_index": first}})
+                            "found_in": {"family": fam, "naming": scn["naming"], "length": len(seq), "first_failing_index": first}})
     ctx.stats["correspondence_breaks"] = len(breaks)
     if breaks and not ctx.violations:
         ctx.report("correspondence", "language-server model and implementation disagree; the specification holds on every explored history",
                    {"correspondence": "c18.check (Sys/Lsp.lean step) vs the real handlers", "first": breaks[0], "count": len(breaks)}, no_failing_input=True)
     elif breaks:
-        ctx.stats["correspondence_first"] = {k: breaks[0][k] for k in ("family", "event")}
+        ctx.stats["correspondence_first"] = {k: breaks[0][k] for k in ("family", "naming", "event")}
 
 
 def replay(ctx, body):
     inp = body["input"]
-    scn = {"texts": inp["scenario"]["texts"], "disk": inp["scenario"]["disk"]}
+    scn = dict(inp["scenario"])
     root = ctx.tmp / "replay"
     lsp.setup(root)
-    tb = lsp.front_table(root, scn, inp["events"])
-    impl = lsp.run_sequence(root, scn, inp["events"])
-    r = ctx.driver.one({"op": "c18.check", "configUri": lsp.config_uri(root), "front": tb,
-                        "items": [{"events": lsp.model_events(root, inp["events"]), "impl": impl}]})
+    tb, impl, r = check_one(ctx, root, scn, inp["events"])
     buffer_ok = all(row["r"].get("buffer_ok", True) for row in tb)
     print(json.dumps({"impl_last": impl[-1] if impl else None, "check": r, "front_end_given_the_buffer": buffer_ok}, indent=1)[:3000])
     return "error" not in r and not r["results"][0]["spec"] and buffer_ok
